@@ -45,6 +45,16 @@ static int build_exts(uint8_t *ex, size_t *el, size_t max, const KV *kv)
 		else if (!strcmp(t, "aki")) rc = x509_exts_add_default_authority_key_identifier(ex, el, max, &kiss);
 		else if (!strcmp(t, "crldp")) rc = x509_exts_add_crl_distribution_points_ex(ex, el, max, OID_ce_crl_distribution_points, crit, "http://example.org/ca.crl", 25, NULL, 0);
 		else if (!strcmp(t, "pc")) rc = x509_exts_add_policy_constraints(ex, el, max, crit, 1, 2);
+		else if (!strcmp(t, "iap")) rc = x509_exts_add_inhibit_any_policy(ex, el, max, crit, 2);
+		else if (!strcmp(t, "aia")) rc = x509_exts_add_authority_info_access(ex, el, max, crit, "http://example.org/ca.crt", 25, "http://ocsp.example.org", 23);
+		// (x509_certificate_policies_add_policy_information / x509_general_subtrees_add_general_subtree are stubs that return -1: the inner values are written by hand)
+		else if (!strcmp(t, "cp")) { static const uint8_t d[] = { 0x30, 0x06, 0x06, 0x04, 0x55, 0x1d, 0x20, 0x00, 0x30, 0x09, 0x06, 0x07, 0x2a, 0x81, 0x1c, 0xcf, 0x55, 0x06, 0x01 }; rc = x509_exts_add_certificate_policies(ex, el, max, crit, d, sizeof d); }
+		else if (!strcmp(t, "pm")) { uint8_t d[256]; size_t dl = 0; uint32_t a[6] = {1, 2, 156, 10197, 6, 1}, b[6] = {1, 2, 156, 10197, 6, 2}; uint8_t in2[128], *q2 = in2; size_t il = 0;      // (x509_policy_mappings_add_policy_mapping is declared but not defined: one PolicyMapping written by hand)
+			rc = asn1_object_identifier_to_der(a, 6, &q2, &il); if (rc == 1) rc = asn1_object_identifier_to_der(b, 6, &q2, &il); uint8_t *q3 = d; if (rc == 1) rc = asn1_sequence_to_der(in2, il, &q3, &dl);
+			if (rc == 1) rc = x509_exts_add_policy_mappings(ex, el, max, crit, d, dl); }
+		else if (!strcmp(t, "nc")) { static const uint8_t p1[] = { 0x30, 0x0e, 0x82, 0x0c, '.', 'e', 'x', 'a', 'm', 'p', 'l', 'e', '.', 'o', 'r', 'g' }, p2[] = { 0x30, 0x09, 0x82, 0x07, 'b', 'a', 'd', '.', 'o', 'r', 'g' };
+			rc = x509_exts_add_name_constraints(ex, el, max, crit, p1, sizeof p1, p2, sizeof p2); }
+		else if (!strcmp(t, "fcrl")) { uint8_t d[256]; size_t dl = 0; uint8_t *pp = d; rc = x509_uri_as_distribution_points_to_der("http://example.org/delta.crl", 28, -1, NULL, 0, &pp, &dl); if (rc == 1) { const uint8_t *c = d; size_t cl = dl; const uint8_t *in; size_t inl; rc = asn1_sequence_from_der(&in, &inl, &c, &cl); if (rc == 1) rc = x509_exts_add_freshest_crl(ex, el, max, crit, in, inl); } }
 		else if (!strncmp(t, "san", 3) || !strncmp(t, "ian", 3)) {      // subject / issuer alternative name with one dNSName of the given length (x509_exts_add_sequence path)
 			static uint8_t gns[2048]; static char nm[1600]; size_t gl = 0; long n = atol(t + 3); if (n < 1) n = 1; if (n > 1500) n = 1500; memset(nm, 'a', (size_t)n); nm[n] = 0;
 			rc = x509_general_names_add_dns_name(gns, &gl, sizeof gns, nm);
